@@ -337,7 +337,7 @@ Section Proofs.
     - intros [= <- <- <-]; exact I.
     - intros [= <- <- <-]; exact I.
     - intros [= <- <- <-]; exact I.
-    - unfold resize. destruct (z_neg ms); [intros [= <- <- <-]; exact I|].
+    - unfold resize.
       destruct (normalize _) as [[c1 l1] n1] eqn:Hn. intros [= <- <- <-].
       exact (proj1 (normalize_spec _ _ _ _ (resize_mid_pre mw (z_to_N ms) c I Hs) Hn)).
     - destruct (purge c) as [c1 l1] eqn:G. intros [= <- <- <-]. exact (purge_inv _ _ _ I G).
@@ -503,7 +503,7 @@ Section Proofs.
     - intros [= <- <- <-]. unfold len, abs. cbn [s_items]. rewrite map_length, rev_length. reflexivity.
     - intros [= <- <- <-]. unfold weight, abs. cbn [s_items]. rewrite total_items, sumw_rev.
       destruct I as (_ & -> & _). reflexivity.
-    - unfold resize. destruct (z_neg ms); [intros [= <- <- <-]; reflexivity|].
+    - unfold resize.
       destruct (normalize _) as [[c1 l1] n1] eqn:Hn. intros [= <- <- <-].
       pose proof (normalize_abs _ _ _ _ (resize_mid_pre mw (z_to_N ms) c I Hs) Hn) as R.
       cbn [c_entries c_max_weight c_max_size] in R. unfold abs at 1. cbn [s_items]. rewrite R. reflexivity.
@@ -518,6 +518,12 @@ Section Proofs.
       destruct (add keqb k v w c) as [[c1 l1] n1] eqn:A. intros [= <- <- <-].
       rewrite (add_abs _ _ _ _ _ _ _ I Hs A). reflexivity.
   Qed.
+
+  (* the pinned tree's Resize does not return on a negative size; every other call agrees
+     with the repaired one *)
+  Lemma resize_old_spec mw ms (c : cache) :
+    resize_old mw ms c = if z_neg ms then None else Some (resize mw ms c).
+  Proof. reflexivity. Qed.
 
   Theorem run_refines ops : forall c c' tr,
     inv c -> Forall op_small ops -> run keqb c ops = (c', tr) ->
@@ -680,13 +686,11 @@ Section Proofs.
   Proof. unfold purge. intros [= <- <-]. split; reflexivity. Qed.
 
   Theorem resize_lru mw ms (c c' : cache) lg n :
-    inv c -> small mw -> resize mw ms c = Some (c', lg, n) ->
+    inv c -> small mw -> resize mw ms c = (c', lg, n) ->
     map fst lg ++ keys c' = keys c /\ Permutation (lg ++ pairs c') (pairs c) /\
-    n = N.of_nat (length lg) /\ c_max_weight c' = mw /\ c_max_size c' = z_to_N ms /\ z_neg ms = false.
+    n = N.of_nat (length lg) /\ c_max_weight c' = mw /\ c_max_size c' = z_to_N ms.
   Proof.
-    intros I Hm. unfold resize. destruct (z_neg ms); [discriminate|]. intros Hn0.
-    assert (Hn := f_equal (fun o => match o with Some x => x | None => (c', lg, n) end) Hn0).
-    cbv beta iota in Hn. clear Hn0.
+    intros I Hm. unfold resize. intros Hn.
     pose proof (resize_mid_pre mw (z_to_N ms) c I Hm) as P.
     destruct (normalize_order _ _ _ _ P Hn) as [O1 O2].
     destruct (normalize_spec _ _ _ _ P Hn) as (_ & H1 & H2 & H3 & _).
@@ -724,7 +728,7 @@ Section Proofs.
   Fixpoint bounds_after (b : N * N) (ops : list (op K V)) : N * N :=
     match ops with
     | [] => b
-    | OResize mw ms :: r => bounds_after (if z_neg ms then b else (mw, z_to_N ms)) r
+    | OResize mw ms :: r => bounds_after (mw, z_to_N ms) r
     | _ :: r => bounds_after b r
     end.
 
@@ -732,7 +736,7 @@ Section Proofs.
     inv c -> op_small o -> step keqb c o = (c', r, lg) ->
     (c_max_weight c', c_max_size c') =
       match o with
-      | OResize mw ms => if z_neg ms then (c_max_weight c, c_max_size c) else (mw, z_to_N ms)
+      | OResize mw ms => (mw, z_to_N ms)
       | _ => (c_max_weight c, c_max_size c)
       end.
   Proof.
@@ -744,9 +748,6 @@ Section Proofs.
     - unfold get. destruct (find_entry keqb k (c_entries c)); intros [= <- <- <-]; reflexivity.
     - unfold remove. destruct (find_entry keqb k (c_entries c)); intros [= <- <- <-]; reflexivity.
     - unfold remove_oldest. destruct (rev (c_entries c)); intros [= <- <- <-]; reflexivity.
-    - unfold resize. destruct (z_neg ms); [intros [= <- <- <-]; reflexivity|].
-      destruct (normalize _) as [[c1 l1] n1] eqn:Hn. intros [= <- <- <-].
-      destruct (normalize_spec _ _ _ _ (resize_mid_pre mw (z_to_N ms) c I Hs) Hn) as (_ & -> & -> & _). reflexivity.
     - unfold contains_or_add. destruct (contains keqb k c); [intros [= <- <- <-]; reflexivity|].
       rewrite add_unfold. destruct (normalize _) as [[c1 l1] n1] eqn:Hn. intros [= <- <- <-].
       destruct (add_mid_spec k v w c I Hs) as (P & _ & H1 & H2).
@@ -828,9 +829,9 @@ Section Proofs.
     (b = true <-> In k (keys c)) /\ (b = false -> lg = []) /\ (b = true -> exists v, lg = [(k, v)]).
   Proof. intros R. exact (remove_reports k c c' lg b (reach_inv c R)). Qed.
   Corollary resize_lru_reach mw ms c c' lg n :
-    reachable c -> small mw -> resize mw ms c = Some (c', lg, n) ->
+    reachable c -> small mw -> resize mw ms c = (c', lg, n) ->
     map fst lg ++ keys c' = keys c /\ Permutation (lg ++ pairs c') (pairs c) /\
-    n = N.of_nat (length lg) /\ c_max_weight c' = mw /\ c_max_size c' = z_to_N ms /\ z_neg ms = false.
+    n = N.of_nat (length lg) /\ c_max_weight c' = mw /\ c_max_size c' = z_to_N ms.
   Proof. intros R. exact (resize_lru mw ms c c' lg n (reach_inv c R)). Qed.
   Corollary step_refines_reach c o c' r lg :
     reachable c -> op_small o -> step keqb c o = (c', r, lg) ->
@@ -882,3 +883,8 @@ Section SpecFacts.
         * injection H as _ H. exact (IH _ _ eq_refl _ _ H Hf).
   Qed.
 End SpecFacts.
+
+(* ---------- the pinned tree: Resize with a negative size never returns ---------- *)
+Example resize_old_refuted :
+  forall c : cache N N, resize_old 10 (-1)%Z c = None.
+Proof. intros c. reflexivity. Qed.
